@@ -413,7 +413,7 @@ def handlers(emit, repo):
         scratch = tempfile.mkdtemp(prefix="verif_rob_")
         cwd = os.getcwd()
         ev = {"e": "Roborta", "keys": [], "loaderr": "", "games": [], "exact": [], "raw": [], "outcomes": [],
-              "created": []}
+              "created": [], "depiction": {"moves": [], "rewards": [], "loose": []}}
         try:
             os.makedirs(os.path.join(scratch, "inputs"))
             os.chdir(scratch)
@@ -456,6 +456,7 @@ def handlers(emit, repo):
                                         pr["tb"] / 1e6, pr["rb"] / 1e6, pr["lb"] / 1e6)
                 d = cr.read_dict_from_file(path)
                 ev["keys"] = [str(k) for k in d.keys()]
+                ev["depiction"] = parse_depiction(path)     # the board as drawn in the head comment
             except Exception as exc:
                 ev["loaderr"] = type(exc).__name__
                 d = {}
